@@ -25,9 +25,27 @@ TEXT = {
     "C19": ("model_checking", "ordering and monotonicity of (term, commit, applied, snapshot, config indexes) on every state of the bounded model and every observed real state", "5.C19"),
 }
 
+LOG_TEXT = {
+    "C13": ("model_checking", "SegLog.tla (abstract sequence + segmentation) is exhausted by TLC for short operation sequences; TLC-generated and directed operation sequences are replayed on a real log directory and every API observation (indexes, bytes, multi-entry reads, contains, CanLTE, front removal, view stability, results) is compared with the specification by TLC (SegLogTrace)", "5.C13"),
+    "C14": ("fault_enumeration", "at every hook point inside every log operation of the replayed sequences the directory is copied (process-kill image) and combined with last-flushed file contents (power-loss images); each image is reopened with the real log.Open and judged by the TLA+ predicate RecoverOK against the specification's pre/post state of that operation", "5.C14"),
+}
 checks = []
 for p in props:
     pid = p["id"]
+    if pid in LOG_TEXT:
+        cat, text, ref = LOG_TEXT[pid]
+        checks.append({
+            "property_id": pid,
+            "quick_cmd": "python3 bin/check_log.py %s --tier quick" % pid,
+            "thorough_cmd": "python3 bin/check_log.py %s --tier thorough" % pid,
+            "evidence_file": "/verif/evidence/%s.json" % pid,
+            "replay_cmd_template": "python3 bin/check_log.py %s --replay {path}" % pid,
+            "engine": "tlc-seglog",
+            "level_claimed": {"category": cat, "text": text, "design_ref": ref},
+            "level_note": "segment size 1 KiB, payload sizes {0,10,400,1000,1001}; power-loss model at file granularity, directory operations durable once completed; SegLog.tla is the trusted reference of the abstract sequence",
+            "technique": "explicit TLA+ spec (SegLog.tla) model-checked with TLC; TLC-generated operation sequences replayed on the real log; TLC trace validation of every observation and TLA+ recovery predicate on every crash image",
+        })
+        continue
     if pid not in plans.PLANS or pid not in TEXT:
         continue
     cat, text, ref = TEXT[pid]
@@ -63,6 +81,8 @@ m = {
     "engines": [
         {"name": "tlc-raft", "path": "/verif/tla", "serves_properties": sorted(claimed),
          "kind_free_text": "TLA+ specification Raft.tla (+RaftProps property operators) checked with TLC: exhaustive bounded configs, -simulate schedule generation, RaftTrace trace validation and RaftObs observation checking of real-code recordings produced by the Layer-1 harness (/verif/harness/raft)"},
+        {"name": "tlc-seglog", "path": "/verif/tla/SegLog.tla", "serves_properties": ["C13", "C14"],
+         "kind_free_text": "TLA+ specification of the segmented log (SegLog.tla), SegLogTrace conformance of recordings made by /verif/harness/log on real log directories incl. crash images"},
     ],
     "checks": checks,
     "notes": "see DESIGN.md; known_findings.jsonl lists repaired defects (fix: commits in /repo) and recorded findings",
